@@ -42,6 +42,10 @@ struct ProtoObs {
     // ground truth from the harness: a well-formed fatal alert record was handed to this role while it read plaintext
     bool fatal_alert_given[2] = { false, false }; int fatal_alert_desc[2] = { -1, -1 };
     bool ccs_given[2] = { false, false };      // some change_cipher_spec record (honest or not) was handed to this role
+    // TLS 1.3 early data
+    int early_write_ok = 0, early_write_refused = 0, early_write_unpermitted = 0;   // unpermitted: accepted although matrixSslGetMaxEarlyData() was 0
+    size_t skipped_undecryptable_bytes = 0;   // protected records a TLS 1.3 server swallowed before completion without progress, delivery, output or death
+    int skipped_records = 0;
     std::vector<SealRec> seals;
     std::vector<std::string> states;
     std::map<std::string, int64_t> counters;
